@@ -1545,6 +1545,7 @@ impl Vm {
             Err(error) => {
                 let exc_object = self.new_root_obj_err_from_error(error);
                 self.poke(0, Value::ObjInstance(exc_object.as_gc()));
+                self.active_fiber_mut().error_ip = Some(self.ip);
                 self.unwind_stack()?;
             }
         }
